@@ -111,17 +111,7 @@ def run(ctx, case):
     spec = case["spec"]
     if df is None:
         return
-    kinds = set()
-    for c in spec["comps"]:
-        kinds.add(c["kind"])
-        ctx.see("kinds", c["kind"])
-        for z in ("eff", "vdrop", "ig"):
-            if z in c["args"]:
-                ctx.see("param_forms", "%s.%s:%s" % (c["kind"], z, M.param_form(c["args"][z], z)))
-    sh = S.shape_sig(spec)
-    ctx.see("shape", "n%d/d%d/f%d/s%d" % (sh["n"] // 5 * 5, sh["depth"], min(sh["fanout"], 8), sh["sources"]))
-    ctx.see("polarity", spec.get("_meta", {}).get("polarity", "?"))
-    ctx.count("phases", len(spec.get("phases") or {}))
+    kinds = _rows.observe(ctx, spec)
     if len(spec["comps"]) >= 4 and len(kinds) >= 3:
         ctx.nontrivial(S.canonical(spec))
     ctx.sample({"spec": _short(spec), "rows": len(df)})
